@@ -43,8 +43,18 @@ def call(w, e, st):
         recv_node = f
         target = ("callvalue",)
 
+    pre = []
+    if target[0] == "resolved" and isinstance(f, ast.Attribute):
+        chain = dotted_chain(f)
+        if chain[0] in w.mod.imports and len(chain) > 1:
+            missing = w.eng.imports.check_chain(w.mod, chain)
+            st = st.copy()
+            st.ev("attrchain", w.site(f), tuple(chain), target[1], missing)
+            if missing is not None:
+                w.rz(pre, st, f, "AttributeError", "submodule %s is used without being imported and is not in the static import closure of %s" % (missing, w.mod.name), [], origin="import-closure")
     nodes = ([recv_node] if recv_node is not None else []) + list(e.args) + [k.value for k in e.keywords]
     cur, outs = w.seq([n.value if isinstance(n, ast.Starred) else n for n in nodes], st)
+    outs = pre + outs
     res = []
     for s, ts in cur:
         recv = None
